@@ -4,6 +4,7 @@
    of a buffer that must not change are printed back (canaries).
    One case per line:
      R <v>                          expect(fr, will_return(v)); fr()            -> R <returned>
+     K <n> <bits hex16>             n doubles boxed, all alive, then unboxed in order            -> K ok | K <first wrong index>
      D <bits hex16>                 will_return_double + unbox_double(mock())   -> D <bits> <bits of unbox(box(d))>
      B <size> <hex src>             will_return_by_value                        -> B <hex of the returned block>
      S <buflen> <off> <size> <hex src>  will_set_contents_of_output_parameter   -> S <hex of the whole buffer>
@@ -94,6 +95,23 @@ int main(void) {
             r = fd(); memcpy(&out, &r, 8);
             r2 = unbox_double(box_double(d)); memcpy(&out2, &r2, 8);
             printf("D %016" PRIx64 " %016" PRIx64, out, out2);
+        } else if (k == 'K') {
+            /* K <n> <bits hex16>: n boxed doubles alive at the same time, unboxed in the order they were boxed */
+            int n = 0; unsigned long long base = 0; int bad = -1;
+            sscanf(line + 2, "%d %llx", &n, &base);
+            intptr_t *boxes = (intptr_t *)malloc(sizeof(intptr_t) * (size_t)(n > 0 ? n : 1));
+            for (int i = 0; i < n; i++) {
+                uint64_t bits = base + (uint64_t)i * 0x0001000100010001ULL; double d;
+                memcpy(&d, &bits, 8);
+                boxes[i] = box_double(d);
+            }
+            for (int i = 0; i < n; i++) {
+                uint64_t bits = base + (uint64_t)i * 0x0001000100010001ULL, out; double r = unbox_double(boxes[i]);
+                memcpy(&out, &r, 8);
+                if (out != bits && bad < 0) bad = i;
+            }
+            free(boxes);
+            if (bad < 0) printf("K ok"); else printf("K %d", bad);
         } else if (k == 'B') {
             /* B <size> <hex> [<mode e|a> <calls>] */
             size_t n; long size; char mode = 'e'; int calls = 1;
